@@ -1392,7 +1392,18 @@ func (ex *Exec) ropeEq(a, b Str) Bool {
 			}
 			parts = append(parts, mkEq(decTerm(seg), mkConst(uint64(n), 64)))
 		default:
-			unsupported("comparison of composite numeric runs in formatted strings")
+			// composite runs (a segment adjacent to digits or to another segment):
+			// decidable only when both sides are item-wise identical
+			same := len(p.items) == len(q.items)
+			for k := 0; same && k < len(p.items); k++ {
+				a, b := p.items[k], q.items[k]
+				if a.W != b.W || (a.T == nil) != (b.T == nil) || (a.T != nil && a.T.s != b.T.s) || (a.T == nil && a.C != b.C) {
+					same = false
+				}
+			}
+			if !same {
+				unsupported("comparison of composite numeric runs in formatted strings")
+			}
 		}
 	}
 	return mkBool(mkAnd(parts...))
@@ -1636,6 +1647,10 @@ func (ex *Exec) checkHashable(key Val) {
 	if ifc, ok := key.(Iface); ok {
 		if !types.Comparable(ifc.T) {
 			ex.gopanic("unhashable", "runtime error: hash of unhashable type "+typeString(ifc.T))
+		}
+		// comparable static type, unhashable content (an interface element or field holding a slice, map or func)
+		if !ex.valComparable(ifc.T, ifc.V) {
+			ex.gopanic("unhashable", "runtime error: hash of unhashable type (boxed in "+typeString(ifc.T)+")")
 		}
 	}
 }
